@@ -176,11 +176,12 @@ class Unsat(Exception):
 class Store:
     """Conjunction of linear constraints.  Persistent-ish: copy() is cheap
     (shares immutable members, copies containers lazily)."""
-    __slots__ = ('eqs', 'les', 'nes', 'unsat', '_cache')
+    __slots__ = ('eqs', 'les', 'lt', 'nes', 'unsat', '_cache')
 
     def __init__(self):
         self.eqs = {}        # sym -> LinExpr (fully substituted)
         self.les = set()     # LinExpr e meaning e <= 0
+        self.lt = {}         # terms -> the (single, tightest) row with these terms
         self.nes = set()     # LinExpr e meaning e != 0
         self.unsat = False
         self._cache = {}
@@ -189,10 +190,34 @@ class Store:
         s = Store()
         s.eqs = dict(self.eqs)
         s.les = set(self.les)
+        s.lt = dict(self.lt)
         s.nes = set(self.nes)
         s.unsat = self.unsat
         s._cache = {}
         return s
+
+    def _add_row(self, e):
+        """insert row e <= 0 keeping only the tightest row per term vector"""
+        old = self.lt.get(e.t)
+        if old is not None:
+            if old.k >= e.k:
+                return False
+            self.les.discard(old)
+        self.lt[e.t] = e
+        self.les.add(e)
+        return True
+
+    def _del_row(self, e):
+        if e in self.les:
+            self.les.discard(e)
+            if self.lt.get(e.t) is e or self.lt.get(e.t) == e:
+                del self.lt[e.t]
+
+    def _set_les(self, rows):
+        self.les = set()
+        self.lt = {}
+        for r in rows:
+            self._add_row(r)
 
     # ---- normal forms
     def nf(self, e):
@@ -212,12 +237,13 @@ class Store:
         if e in self.les:
             return
         # e <= 0 and -e <= 0 -> equality
-        self.les.add(e)
+        if not self._add_row(e):
+            return
         self._cache = {}
         neg = norm_le(-e)
         if neg in self.les:
-            self.les.discard(e)
-            self.les.discard(neg)
+            self._del_row(e)
+            self._del_row(neg)
             self.add_eq(e)
 
     def add_lt(self, e):
@@ -252,7 +278,7 @@ class Store:
                     self.unsat = True
                     return
                 if x is not True:
-                    self.les.add(x)
+                    self._add_row(x)
             self._cache = {}
             return
         s, c = pick
@@ -270,7 +296,7 @@ class Store:
                 self.unsat = True
                 return
             new_les.add(n)
-        self.les = new_les
+        self._set_les(new_les)
         new_nes = set()
         for ne in self.nes:
             n = ne.subst(m)
@@ -290,8 +316,8 @@ class Store:
             if e in self.les:
                 neg = norm_le(-e)
                 if neg in self.les:
-                    self.les.discard(e)
-                    self.les.discard(neg)
+                    self._del_row(e)
+                    self._del_row(neg)
                     self.add_eq(e)
                     return
 
@@ -364,7 +390,7 @@ class Store:
                             self.unsat = True
                             return
                         rest.add(n)
-            self.les = rest
+            self._set_les(rest)
         self._cache = {}
 
     # ---- queries
